@@ -3,6 +3,7 @@
 package c14
 
 import (
+	"bytes"
 	"encoding/json"
 	"fmt"
 	"math"
@@ -58,7 +59,7 @@ func checkDuration(c DurCase) error {
 		return err
 	}
 	var back timeutil.Duration
-	if err = back.UnmarshalText(text); err != nil {
+	if err = back.UnmarshalText(bytes.Clone(text)); err != nil {
 		return fmt.Errorf("Duration(%d): MarshalText gives %q, which UnmarshalText rejects: %v", c.D, text, err)
 	}
 	if back != d {
@@ -153,7 +154,10 @@ func checkHostPort(c HPCase) error {
 		return err
 	}
 	var u netutil.HostPort
-	if err = u.UnmarshalText(text); err != nil || u != hp {
+	ubuf := bytes.Clone(text)
+	err = u.UnmarshalText(ubuf)
+	vp.Scribble(ubuf) // the caller reuses its buffer
+	if err != nil || u != hp {
 		return fmt.Errorf("HostPort{%s, %d}: UnmarshalText(%s) = %+v, %v", vp.Q(host), c.Port, vp.Q(string(text)), u, err)
 	}
 	dirty := netutil.HostPort{Host: "stale.example", Port: 9}
@@ -320,7 +324,10 @@ func checkURL(c URLCase) error {
 		return err
 	}
 	var back urlutil.URL
-	if err = back.UnmarshalText(text); err != nil {
+	tbuf := bytes.Clone(text)
+	err = back.UnmarshalText(tbuf)
+	vp.Scribble(tbuf) // the caller reuses its buffer
+	if err != nil {
 		return fmt.Errorf("URL %s (String %s): MarshalText gives %s, which UnmarshalText rejects: %v", vp.Q(raw), vp.Q(want), vp.Q(string(text)), err)
 	}
 	if got := back.String(); got != want {
@@ -344,7 +351,10 @@ func checkURL(c URLCase) error {
 		return fmt.Errorf("URL %s: json.Marshal failed: %v", vp.Q(raw), err)
 	}
 	var jb urlutil.URL
-	if err = json.Unmarshal(j, &jb); err != nil {
+	jbuf := bytes.Clone(j)
+	err = json.Unmarshal(jbuf, &jb)
+	vp.Scribble(jbuf) // the caller reuses its message buffer
+	if err != nil {
 		return fmt.Errorf("URL %s (String %s): json.Marshal gives %s, which json.Unmarshal rejects: %v", vp.Q(raw), vp.Q(want), j, err)
 	}
 	if got := jb.String(); got != want {
@@ -364,7 +374,10 @@ func checkURL(c URLCase) error {
 		return fmt.Errorf("URL %s: json.Marshal of a struct holding it failed: %v", vp.Q(raw), err)
 	}
 	var wb wrap
-	if err = json.Unmarshal(wj, &wb); err != nil || wb.U == nil || wb.M["k"] == nil {
+	wbuf := bytes.Clone(wj)
+	err = json.Unmarshal(wbuf, &wb)
+	vp.Scribble(wbuf)
+	if err != nil || wb.U == nil || wb.M["k"] == nil {
 		return fmt.Errorf("URL %s: struct JSON %s does not decode: %v", vp.Q(raw), wj, err)
 	}
 	if wb.U.String() != want || wb.M["k"].String() != want {
